@@ -53,6 +53,10 @@ def piece_bytes(x, rng):
     if x == "put_dir_badhash":
         content = cb.frame({"Delete": {"path": "f", "expected": H("c1")}}) + cb.frame({"Delete": {"path": "f", "expected": H("c2")}})
         return cb.frame({"Put": {"path": "docs", "expected": None, "len": len(content), "hash": H("c3")}}) + content, False
+    if x == "put_under_file":
+        # (the content looks like frames: bytes that are not drained would be read as requests)
+        content = cb.frame({"Delete": {"path": "f", "expected": H("c1")}}) + cb.frame({"Delete": {"path": "f", "expected": H("c2")}})
+        return cb.frame({"Put": {"path": "docs/keep/x", "expected": None, "len": len(content), "hash": H("c3")}}) + content, False
     if x == "delete_c2":
         return cb.frame({"Delete": {"path": "f", "expected": H("c2")}}), False
     if x == "delete_badpath":
@@ -273,11 +277,19 @@ def run_case(job):
     flat = lambda r: [x if isinstance(x, str) else ":".join(map(str, x)) for x in r]
     replies, full_want = flat(replies), flat(full_want)
     coarse = lambda r: ["Error" if x.startswith("Error:") else x for x in r]
+    # a server that ENDS the session (error exit, nothing changed) at a Put it cannot stage has still handled its input totally:
+    # C12 binds what follows an error REPLY.  Such a run differs from the model (reported as non-conformance), it is no alarm.
+    in_step_expected = True
+    if kind == "session" and "put_under_file" in case["pieces"] and code == 1 and not signaled:
+        cw = coarse(full_want)
+        cut_at = [i for i, x in enumerate(case["pieces"]) if x == "put_under_file"]
+        if any(coarse(replies) == cw[:i] for i in range(len(cw) + 1)) and len(replies) < len(full_want) and cut_at:
+            in_step_expected = False
     rec = {"kind": kind, "pro": case["pro"], "pieces": case["pieces"], "exit": code if not signaled else -1, "signaled": signaled, "timed_out": code == 124,
            "replies": replies, "f": f, "conf": conf, "tree_unchanged": (f == "c1" and conf == "none" and not other),
            "valid_request_seen": valid_seen, "big_reservation": big,
            "want_replies": full_want, "replies_c": coarse(replies), "want_replies_c": coarse(full_want), "want_exit": case["exit"], "want_f": case["f"], "want_conf": case["conf"],
-           "in_step_expected": True, "nbytes": len(data), "stderr": p.stderr.decode("utf8", "replace")[-200:] if signaled else ""}
+           "in_step_expected": in_step_expected, "nbytes": len(data), "stderr": p.stderr.decode("utf8", "replace")[-200:] if signaled else ""}
     return rec
 
 
